@@ -127,7 +127,22 @@ type kindDef struct {
 	wrap  bool   // rule wrapped in @media <media>
 	late  bool   // @import placed after a style rule (invalid position)
 	chain int    // length of the @import chain (1 or 2)
+	// shape of the selector path below the top-level selector: "" (plain rule), "&", "&.c",
+	// "&&" (two levels of "&"), "rel" (relative nested selector under body)
+	shape string
+	// padding of the rule that holds the carrier's declaration (pre/post) and of its parent rule
+	// around the nested rule (ppre/ppost): a string over 'F' (a declaration of another property,
+	// left:0), 'N' (a nested rule declaring another property, &{top:0}), 'X' (a nested rule whose
+	// selector is invalid, &:bogus{top:0}: only that nested rule is dropped) and 'U' (a nested
+	// rule for a pseudo-element the implementation parses but does not support,
+	// &::selection{top:0}: again only that nested rule is dropped). They give a rule
+	// declarations of its own before, between and after nested rules.
+	pre, post, ppre, ppost string
 }
+
+type pads struct{ pre, post, ppre, ppost string }
+
+func (k kindDef) pads() pads { return pads{k.pre, k.post, k.ppre, k.ppost} }
 
 var kinds = map[string]kindDef{
 	"ua":                {name: "ua", cls: clsUA},
@@ -151,14 +166,47 @@ var kinds = map[string]kindDef{
 	"style-screen":      {name: "style-screen", cls: clsOwnStyle, media: "screen"},
 	"link-screen":       {name: "link-screen", cls: clsOwnLink, media: "screen"},
 	// nested rules live in the body of a <style>; they differ by their selector path
-	"nest&":        {name: "nest&", cls: clsStyleBody},
-	"nest&.c":      {name: "nest&.c", cls: clsStyleBody},
-	"nest2":        {name: "nest2", cls: clsStyleBody},
-	"nestrel":      {name: "nestrel", cls: clsStyleBody},
+	"nest&":        {name: "nest&", cls: clsStyleBody, shape: "&"},
+	"nest&.c":      {name: "nest&.c", cls: clsStyleBody, shape: "&.c"},
+	"nest2":        {name: "nest2", cls: clsStyleBody, shape: "&&"},
+	"nestrel":      {name: "nestrel", cls: clsStyleBody, shape: "rel"},
 	"nomatch":      {name: "nomatch", cls: clsStyleBody},
 	"nest-nomatch": {name: "nest-nomatch", cls: clsStyleBody},
 	"attr":         {name: "attr", cls: clsAttr},
 	"hint":         {name: "hint", cls: clsHint},
+	// rules with declarations of their own before, between and after nested rules
+	// (d = the carrier's declaration, n = the nested rule holding it, F/N = padding, see kindDef)
+	"style-dNF":   {name: "style-dNF", cls: clsStyleBody, post: "NF"},                        // S{P:v; &{top:0} left:0}
+	"style-FNd":   {name: "style-FNd", cls: clsStyleBody, pre: "FN"},                         // S{left:0; &{top:0} P:v}
+	"style-dN":    {name: "style-dN", cls: clsStyleBody, post: "N"},                          // S{P:v; &{top:0}}
+	"style-Nd":    {name: "style-Nd", cls: clsStyleBody, pre: "N"},                           // S{&{top:0} P:v}
+	"style-NdN":   {name: "style-NdN", cls: clsStyleBody, pre: "N", post: "N"},               // S{&{top:0} P:v; &{top:0}}
+	"style-FNdNF": {name: "style-FNdNF", cls: clsStyleBody, pre: "FN", post: "NF"},           // S{left:0; &{top:0} P:v; &{top:0} left:0}
+	"nest&-nF":    {name: "nest&-nF", cls: clsStyleBody, shape: "&", ppost: "F"},             // S{&{P:v} left:0}
+	"nest&-FnF":   {name: "nest&-FnF", cls: clsStyleBody, shape: "&", ppre: "F", ppost: "F"}, // S{left:0; &{P:v} left:0}
+	"nest&-NnF":   {name: "nest&-NnF", cls: clsStyleBody, shape: "&", ppre: "N", ppost: "F"}, // S{&{top:0} &{P:v} left:0}
+	"nest&-dNF":   {name: "nest&-dNF", cls: clsStyleBody, shape: "&", post: "NF"},            // S{&{P:v; &{top:0} left:0}}
+	// the same shape in the other sheet kinds
+	"ua-dNF":     {name: "ua-dNF", cls: clsUA, post: "NF"},
+	"user-dNF":   {name: "user-dNF", cls: clsUser, post: "NF"},
+	"link-dNF":   {name: "link-dNF", cls: clsLinkBody, post: "NF"},
+	"import-dNF": {name: "import-dNF", cls: clsStyleHead, chain: 1, post: "NF"},
+	// nested rules inside @media
+	"media-nest&":      {name: "media-nest&", cls: clsStyleBody, wrap: true, media: "print", shape: "&"},
+	"media-nest&-nF":   {name: "media-nest&-nF", cls: clsStyleBody, wrap: true, media: "print", shape: "&", ppost: "F"},
+	"media-dNF":        {name: "media-dNF", cls: clsStyleBody, wrap: true, media: "print", post: "NF"},
+	"media-screen-dNF": {name: "media-screen-dNF", cls: clsStyleBody, wrap: true, media: "screen", post: "NF"},
+	// nested rules that are dropped (invalid selector, unsupported pseudo-element) or that style
+	// a pseudo-element and not the element: as padding, and as (never applying) carriers
+	"style-dX":            {name: "style-dX", cls: clsStyleBody, post: "X"},             // S{P:v; &:bogus{top:0}}
+	"style-Xd":            {name: "style-Xd", cls: clsStyleBody, pre: "X"},              // S{&:bogus{top:0} P:v}
+	"style-dU":            {name: "style-dU", cls: clsStyleBody, post: "U"},             // S{P:v; &::selection{top:0}}
+	"style-Ud":            {name: "style-Ud", cls: clsStyleBody, pre: "U"},              // S{&::selection{top:0} P:v}
+	"nest&-Xn":            {name: "nest&-Xn", cls: clsStyleBody, shape: "&", ppre: "X"}, // S{&:bogus{top:0} &{P:v}}
+	"nest&-Un":            {name: "nest&-Un", cls: clsStyleBody, shape: "&", ppre: "U"}, // S{&::selection{top:0} &{P:v}}
+	"nest-invalid":        {name: "nest-invalid", cls: clsStyleBody, shape: "&:bogus"},  // S{&:bogus{P:v}}
+	"nest-unsupported-pe": {name: "nest-unsupported-pe", cls: clsStyleBody, shape: "&::selection"},
+	"nest-pseudo-el":      {name: "nest-pseudo-el", cls: clsStyleBody, shape: "&::before"},
 }
 
 // inst is one carrier instance: a place where one declaration of the probed property is put.
@@ -186,14 +234,21 @@ func (in inst) label() string {
 func ruleInst(kind, sel string, imp bool) inst {
 	s := selByText(sel)
 	in := inst{kind: kind, imp: imp}
-	switch kind {
-	case "nest&":
+	k, ok := kinds[kind]
+	if !ok {
+		panic("c03: unknown carrier kind " + kind)
+	}
+	switch k.shape {
+	case "&":
 		in.path, in.match, in.spec = []string{sel, "&"}, s.match, s.specIs
-	case "nest&.c":
+	case "&.c":
 		in.path, in.match, in.spec = []string{sel, "&.c"}, s.match, addSpec(s.specIs, sp(0, 1, 0))
-	case "nest2":
+	case "&&":
 		in.path, in.match, in.spec = []string{sel, "&", "&"}, s.match, s.specIs
-	case "nestrel":
+	case "&:bogus", "&::selection", "&::before":
+		// invalid / unsupported / pseudo-element rule: never applies to the probe element
+		in.path, in.match, in.spec = []string{sel, k.shape}, false, sp(9, 9, 9)
+	case "rel":
 		// body { sel {…} }  ==  :is(body) sel  (each member of a list gets the implied "& ")
 		in.path, in.match, in.spec, in.rel = []string{"body", sel}, s.match, addSpec(sp(0, 0, 1), s.specTop), true
 	default:
@@ -227,6 +282,40 @@ func fullSet() []inst {
 		}
 	}
 	out = append(out, inst{kind: "attr"}, inst{kind: "attr", imp: true}, inst{kind: "hint"})
+	// rules with declarations of their own before / between / after nested rules, on the
+	// selectors of specificity (0,0,1), (1,0,0) and (0,0,0) so that they tie with the plain carriers
+	for _, k := range []string{"style-dNF", "style-FNd", "style-dN", "style-Nd", "style-NdN", "style-FNdNF"} {
+		for _, s := range []string{"T", "#i", "*"} {
+			for _, imp := range bools {
+				out = append(out, ruleInst(k, s, imp))
+			}
+		}
+	}
+	for _, k := range []string{"nest&-nF", "nest&-FnF", "nest&-NnF", "nest&-dNF"} {
+		for _, s := range []string{"T", "*"} {
+			for _, imp := range bools {
+				out = append(out, ruleInst(k, s, imp))
+			}
+		}
+	}
+	out = append(out, ruleInst("ua-dNF", "T", false))
+	for _, k := range []string{"user-dNF", "link-dNF", "import-dNF", "media-dNF", "media-nest&-nF"} {
+		for _, imp := range bools {
+			out = append(out, ruleInst(k, "T", imp))
+		}
+	}
+	for _, s := range []string{"T", ".c"} {
+		for _, imp := range bools {
+			out = append(out, ruleInst("media-nest&", s, imp))
+		}
+	}
+	out = append(out, ruleInst("media-screen-dNF", "#i.c", true))
+	for _, k := range []string{"style-dX", "style-Xd", "style-dU", "style-Ud", "nest-invalid", "nest-unsupported-pe", "nest-pseudo-el"} {
+		for _, imp := range bools {
+			out = append(out, ruleInst(k, "T", imp))
+		}
+	}
+	out = append(out, ruleInst("nest&-Xn", "T", false), ruleInst("nest&-Un", "T", false))
 	// carriers that never apply on the default (print) device: the strongest and the weakest form
 	for _, k := range []string{"media-screen", "import-screen", "import-late", "style-screen", "link-screen"} {
 		out = append(out, ruleInst(k, "#i.c", true), ruleInst(k, "*", false))
@@ -280,6 +369,12 @@ func reducedSet() []inst {
 		out = append(out, ruleInst(k, ".c", false))
 	}
 	out = append(out, inst{kind: "attr"}, inst{kind: "attr", imp: true}, inst{kind: "hint"})
+	for _, imp := range bools {
+		out = append(out, ruleInst("style-dNF", "T", imp), ruleInst("style-Nd", "T", imp), ruleInst("style-dN", "T", imp),
+			ruleInst("nest&-nF", "T", imp))
+	}
+	out = append(out, ruleInst("style-FNdNF", "*", false), ruleInst("media-nest&", "T", false), ruleInst("media-dNF", "T", true),
+		ruleInst("style-dX", "T", false), ruleInst("style-Ud", "T", false), ruleInst("nest-invalid", "T", true), ruleInst("nest-unsupported-pe", "T", true))
 	for _, k := range []string{"media-screen", "import-screen", "import-late", "style-screen", "link-screen"} {
 		out = append(out, ruleInst(k, "#i.c", true))
 	}
@@ -299,17 +394,31 @@ type propDef struct {
 	hintV  [3]string // attribute value giving values[k]
 	open   string    // markup before the probe element
 	inner  string    // markup inside / after
+	// sheetHint: the hint comes from a rule of the presentational-hints SHEET (html5_ph.css,
+	// e.g. p[align=center]); otherwise it is computed from the attribute (findStyleAttributes).
+	sheetHint bool
+	// hintOnly: only the cases holding a hint carrier (and the empty case) are explored for
+	// this property: it is there to vary the hint-sheet rule, the rest of the space does not
+	// depend on the property.
+	hintOnly bool
 }
 
 var props = []propDef{
 	{name: "color", tag: "font", values: [3]string{"#010203", "#040506", "#070809"}, canon: [3]string{"#010203", "#040506", "#070809"},
 		hint: "color", hintV: [3]string{"#010203", "#040506", "#070809"}, open: "<body>", inner: "x</font>"},
 	{name: "text-align", tag: "p", values: [3]string{"right", "center", "justify"}, canon: [3]string{"right", "center", "justify"},
-		hint: "align", hintV: [3]string{"right", "center", "justify"}, open: "<body>", inner: "x</p>"},
+		hint: "align", hintV: [3]string{"right", "center", "justify"}, open: "<body>", inner: "x</p>", sheetHint: true},
 	{name: "width", tag: "table", values: [3]string{"11px", "12px", "13px"}, canon: [3]string{"11px", "12px", "13px"},
 		hint: "width", hintV: [3]string{"11", "12", "13"}, open: "<body>", inner: "<tr><td>x</td></tr></table>"},
 	{name: "background-color", tag: "td", values: [3]string{"#010203", "#040506", "#070809"}, canon: [3]string{"#010203", "#040506", "#070809"},
 		hint: "bgcolor", hintV: [3]string{"#010203", "#040506", "#070809"}, open: "<body><table><tr>", inner: "x</td></tr></table>"},
+	// hints given by rules of the hint sheet: ol[type=a], td[valign=top], br[clear=left], table[align=left]…
+	{name: "list-style-type", tag: "ol", values: [3]string{"lower-alpha", "upper-alpha", "lower-roman"}, canon: [3]string{"lower-alpha", "upper-alpha", "lower-roman"},
+		hint: "type", hintV: [3]string{"a", "A", "i"}, open: "<body>", inner: "<li>x</li></ol>", sheetHint: true, hintOnly: true},
+	{name: "vertical-align", tag: "td", values: [3]string{"top", "middle", "bottom"}, canon: [3]string{"top", "middle", "bottom"},
+		hint: "valign", hintV: [3]string{"top", "middle", "bottom"}, open: "<body><table><tr>", inner: "x</td></tr></table>", sheetHint: true, hintOnly: true},
+	{name: "clear", tag: "br", values: [3]string{"left", "right", "both"}, canon: [3]string{"left", "right", "both"},
+		hint: "clear", hintV: [3]string{"left", "right", "all"}, open: "<body>", inner: "", sheetHint: true, hintOnly: true},
 }
 
 // ---- document structure ---------------------------------------------------------------------
@@ -322,7 +431,18 @@ type decl struct {
 // node is a style rule; its items are declarations and nested rules in source order.
 type node struct {
 	sel   string
-	items []any // decl | *node
+	items []any // decl | *node | pad
+}
+
+// pad is an item that declares nothing of the probed property: 'F' a declaration of another
+// property (left:0), 'N' a nested rule holding one (&{top:0}). Neither takes part in the cascade
+// of the probed property; they shape the declaration block around the carriers.
+type pad byte
+
+func appendPads(items *[]any, p string) {
+	for i := 0; i < len(p); i++ {
+		*items = append(*items, pad(p[i]))
+	}
 }
 
 type importB struct {
@@ -333,7 +453,7 @@ type importB struct {
 
 type mediaB struct {
 	query string
-	rule  *node
+	items []any // *node
 }
 
 type filler struct{} // q{top:0}: a valid style rule that declares nothing of interest
@@ -341,7 +461,7 @@ type filler struct{} // q{top:0}: a valid style rule that declares nothing of in
 // sheetB is a style sheet: @import rules at its head, then items.
 type sheetB struct {
 	imports []importB
-	items   []any // *node | mediaB | importB (an @import in invalid position) | filler
+	items   []any // *node | *mediaB | importB (an @import in invalid position) | filler
 }
 
 type elemB struct {
@@ -367,7 +487,7 @@ type variant int
 const (
 	varShare variant = iota // carriers share a container whenever the container kind allows it
 	varSplit                // every carrier gets a container of its own
-	varMerge                // like share, and adjacent carriers whose selector paths have a common prefix share the rule
+	varMerge                // like share, and adjacent carriers whose selector paths have a common prefix share the rule (and the @media block)
 )
 
 var variantName = []string{"share", "split", "merge"}
@@ -377,11 +497,17 @@ func (d *docB) newURL() string {
 	return fmt.Sprintf("f%d.css", d.nfiles)
 }
 
-// addRule puts a declaration at the end of the selector path inside items.
-func addRule(items *[]any, path []string, dc decl, merge bool) {
+// addRule puts a declaration at the end of the selector path inside items, with the padding
+// of its kind around it (pre/post in the innermost rule, ppre/ppost in its parent around the
+// innermost rule).
+func addRule(items *[]any, path []string, pd pads, dc decl, merge bool) {
 	cur := items
-	var n *node
-	for _, s := range path {
+	var n, parent *node
+	for li, s := range path {
+		parent = n
+		if li == len(path)-1 && parent != nil {
+			appendPads(cur, pd.ppre)
+		}
 		n = nil
 		if merge && len(*cur) > 0 {
 			if last, ok := (*cur)[len(*cur)-1].(*node); ok && last.sel == s {
@@ -394,7 +520,12 @@ func addRule(items *[]any, path []string, dc decl, merge bool) {
 		}
 		cur = &n.items
 	}
+	appendPads(&n.items, pd.pre)
 	n.items = append(n.items, dc)
+	appendPads(&n.items, pd.post)
+	if parent != nil {
+		appendPads(&parent.items, pd.ppost)
+	}
 }
 
 // build lays the carriers out in list order.
@@ -412,17 +543,18 @@ func build(p *propDef, insts []inst, v variant) *docB {
 		k := kinds[in.kind]
 		dc := decl{idx: idx, imp: in.imp}
 		one := &sheetB{} // the sheet holding just this rule (imported sheets, own elements)
+		pd := k.pads()
 		if len(in.path) > 0 {
-			addRule(&one.items, in.path, dc, false)
+			addRule(&one.items, in.path, pd, dc, false)
 		}
 		switch k.cls {
 		case clsUA:
-			addRule(&d.ua.items, in.path, dc, merge)
+			addRule(&d.ua.items, in.path, pd, dc, merge)
 		case clsUser:
 			if len(d.users) == 0 || split {
 				d.users = append(d.users, &sheetB{})
 			}
-			addRule(&d.users[len(d.users)-1].items, in.path, dc, merge)
+			addRule(&d.users[len(d.users)-1].items, in.path, pd, dc, merge)
 		case clsAttr:
 			d.attr = append(d.attr, dc)
 		case clsHint:
@@ -448,9 +580,19 @@ func build(p *propDef, insts []inst, v variant) *docB {
 				}
 				e.sheet.items = append(e.sheet.items, importB{url: d.newURL(), sheet: one})
 			case k.wrap:
-				e.sheet.items = append(e.sheet.items, mediaB{query: k.media, rule: one.items[0].(*node)})
+				var mb *mediaB
+				if merge && len(e.sheet.items) > 0 {
+					if last, ok := e.sheet.items[len(e.sheet.items)-1].(*mediaB); ok && last.query == k.media {
+						mb = last
+					}
+				}
+				if mb == nil {
+					mb = &mediaB{query: k.media}
+					e.sheet.items = append(e.sheet.items, mb)
+				}
+				addRule(&mb.items, in.path, pd, dc, merge)
 			default:
-				addRule(&e.sheet.items, in.path, dc, merge)
+				addRule(&e.sheet.items, in.path, pd, dc, merge)
 			}
 		case clsStyleHead, clsLinkHead:
 			link := k.cls == clsLinkHead
@@ -494,6 +636,17 @@ func (d *docB) nodeText(sb *strings.Builder, n *node) {
 			sb.WriteString(";")
 		case *node:
 			d.nodeText(sb, it)
+		case pad:
+			switch it {
+			case 'F':
+				sb.WriteString("left:0;")
+			case 'N':
+				sb.WriteString("&{top:0}")
+			case 'X':
+				sb.WriteString("&:bogus{top:0}")
+			case 'U':
+				sb.WriteString("&::selection{top:0}")
+			}
 		}
 	}
 	sb.WriteString("}")
@@ -518,9 +671,11 @@ func (d *docB) sheetText(sh *sheetB, files map[string]string) string {
 		switch it := it.(type) {
 		case *node:
 			d.nodeText(&sb, it)
-		case mediaB:
+		case *mediaB:
 			sb.WriteString("@media " + it.query + "{")
-			d.nodeText(&sb, it.rule)
+			for _, r := range it.items {
+				d.nodeText(&sb, r.(*node))
+			}
 			sb.WriteString("}")
 		case importB:
 			sb.WriteString(importText(it))
@@ -706,8 +861,10 @@ func (d *docB) evaluate(hints bool, device string) []rec {
 				switch it := it.(type) {
 				case *node:
 					walkNode(it, origin, on)
-				case mediaB:
-					walkNode(it.rule, origin, on && mediaMatches(it.query, device))
+				case *mediaB:
+					for _, r := range it.items {
+						walkNode(r.(*node), origin, on && mediaMatches(it.query, device))
+					}
 				case importB:
 					walkSheet(it.sheet, origin, false) // @import after a style rule is invalid
 				}
@@ -793,6 +950,13 @@ func (d *docB) tags(recs []rec, hints bool, device string, v variant) []string {
 	} else {
 		set["hints:off"] = true
 	}
+	if d.hint >= 0 {
+		if d.prop.sheetHint {
+			set["hint:sheet-rule"] = true
+		} else {
+			set["hint:computed-from-attribute"] = true
+		}
+	}
 	for i, in := range d.insts {
 		set["kind:"+in.kind] = true
 		if in.rel && strings.Contains(in.path[len(in.path)-1], ",") {
@@ -842,6 +1006,28 @@ func (d *docB) tags(recs []rec, hints bool, device string, v variant) []string {
 	}
 	scan = func(nd *node) {
 		var own []int
+		// shape of the block: 'd' a declaration (of any property), 'n' a nested rule
+		shape := ""
+		for _, it := range nd.items {
+			c := "d"
+			switch it := it.(type) {
+			case *node:
+				c = "n"
+			case pad:
+				if it != 'F' {
+					c = "n"
+				}
+			}
+			if !strings.HasSuffix(shape, c) {
+				shape += c
+			}
+		}
+		if strings.Contains(shape, "dnd") {
+			set["decls-before-and-after-nested-rule"] = true
+		}
+		if strings.Contains(shape, "ndn") {
+			set["decl-between-nested-rules"] = true
+		}
 		for _, it := range nd.items {
 			switch it := it.(type) {
 			case decl:
@@ -861,6 +1047,48 @@ func (d *docB) tags(recs []rec, hints bool, device string, v variant) []string {
 			}
 		}
 	}
+	// a top-level rule holding, at any depth, a nested rule with an invalid selector, and an
+	// applying declaration; a nested rule for an unsupported pseudo-element followed, in the same
+	// top-level rule, by an applying declaration
+	scanTop := func(top *node) {
+		hasX, seenU, anyApplies, appliesAfterU := false, false, false, false
+		var walk func(nd *node)
+		walk = func(nd *node) {
+			if strings.Contains(nd.sel, ":bogus") {
+				hasX = true
+			}
+			if strings.Contains(nd.sel, "::selection") {
+				seenU = true
+			}
+			for _, it := range nd.items {
+				switch it := it.(type) {
+				case decl:
+					if recs[it.idx].applies {
+						anyApplies = true
+						if seenU {
+							appliesAfterU = true
+						}
+					}
+				case pad:
+					if it == 'X' {
+						hasX = true
+					}
+					if it == 'U' {
+						seenU = true
+					}
+				case *node:
+					walk(it)
+				}
+			}
+		}
+		walk(top)
+		if hasX && anyApplies {
+			set["decl-in-rule-with-invalid-nested-selector"] = true
+		}
+		if appliesAfterU {
+			set["decl-after-nested-unsupported-pseudo-element"] = true
+		}
+	}
 	var scanSheet func(sh *sheetB)
 	scanSheet = func(sh *sheetB) {
 		for _, im := range sh.imports {
@@ -870,8 +1098,22 @@ func (d *docB) tags(recs []rec, hints bool, device string, v variant) []string {
 			switch it := it.(type) {
 			case *node:
 				scan(it)
-			case mediaB:
-				scan(it.rule)
+				scanTop(it)
+			case *mediaB:
+				for _, r := range it.items {
+					scanTop(r.(*node))
+					for _, sub := range r.(*node).items {
+						switch sub := sub.(type) {
+						case *node:
+							set["nested-rule-in-media"] = true
+						case pad:
+							if sub != 'F' {
+								set["nested-rule-in-media"] = true
+							}
+						}
+					}
+					scan(r.(*node))
+				}
 			case importB:
 				scanSheet(it.sheet)
 			}
@@ -925,6 +1167,12 @@ func selfTest() error {
 		{"a list weighs as its most specific matching member, wherever it is", []inst{st("T,#i", false), st(".c", false)}, varShare, true, [2]int{0, 0}},
 		{"a list weighs as its most specific matching member (2)", []inst{st("*,T.c", false), st(".c", false)}, varShare, true, [2]int{0, 0}},
 		{"non-matching members of a list do not count", []inst{st("T,#z,.c", false), st("T.c", false)}, varShare, true, [2]int{1, 1}},
+		{"a declaration before a nested rule and padding stays a candidate", []inst{ruleInst("style-dNF", "T", true), st("#i", false)}, varShare, true, [2]int{0, 0}},
+		{"padding between the parent declaration and a later one: the two drafts agree", []inst{ruleInst("style-dN", "T", false), st("T", false)}, varMerge, true, [2]int{1, 1}},
+		{"nested rule inside @media print applies", []inst{ruleInst("media-nest&", "T", false), st("*", false)}, varShare, true, [2]int{0, 0}},
+		{"hint of the hint sheet loses to * and beats the user sheet", []inst{{kind: "hint"}, st("*", false), ruleInst("user", "#i", false)}, varShare, true, [2]int{1, 1}},
+		{"an invalid nested rule does not take its parent with it", []inst{ruleInst("style-dX", "T", false), ruleInst("nest-invalid", "#i", true), ruleInst("ua", "#i", false)}, varMerge, true, [2]int{0, 0}},
+		{"a pseudo-element nested rule does not style the element", []inst{ruleInst("nest-pseudo-el", "T", true), ruleInst("style-Ud", "*", false)}, varShare, true, [2]int{1, 1}},
 		{"relative nested selector adds the parent", []inst{ruleInst("nestrel", "T", false), st("T", false)}, varShare, true, [2]int{0, 0}},
 	}
 	for _, c := range cases {
